@@ -16,8 +16,10 @@ import pregex.core.assertions as asr
 
 LEAVES = {'a': lambda: Pregex('a'), 'ab': lambda: Pregex('ab'), 'empty': lambda: Pregex(), 'dollar': lambda: Pregex('a$'),
           'from': lambda: cl.AnyFrom('a', 'c'), 'between': lambda: cl.AnyBetween('a', 'c'),
-          'alt': lambda: op.Either('a', 'ba'), 'anchor': lambda: asr.MatchAtLineStart('a')}
-UNI = O.universe(set('abc$\n'), (), 3, set('ab'), 5)
+          'alt': lambda: op.Either('a', 'ba'), 'anchor': lambda: asr.MatchAtLineStart('a'),
+          'altdup': lambda: op.Either('ab', 'a', 'abc', 'ab')}
+UNI = O.universe(set('abcAB$\n'), (), 3, set('ab'), 5)
+MATCH_TEXTS = ('ab\na$c', 'xab', 'ba', 'a', '', 'cab ab')
 
 
 def projection(p):
@@ -59,6 +61,8 @@ def apply(objs, act):
         return x.capture(), True
     if o == 'group':
         return x.group(), True
+    if o == 'group_ci':
+        return x.group(is_case_insensitive=True), True
     if o == 'followed_by':
         return x.followed_by(y), True
     if o == 'not_preceded_by':
@@ -79,11 +83,19 @@ def apply(objs, act):
         x.get_compiled_pattern(discard_after=True)
         return None, False
     if o == 'match':
-        x.has_match('ab\na$c')
-        x.get_matches('ab\na$c')
-        x.is_exact_match('a')
+        pat = str(x)
+        for t in MATCH_TEXTS:
+            got = (x.has_match(t), x.get_matches(t), x.is_exact_match(t))
+            exp = (re.search(pat, t, O.FLAGS) is not None, [m.group(0) for m in re.finditer(pat, t, O.FLAGS)],
+                   re.fullmatch(pat, t, O.FLAGS) is not None)
+            if got != exp:
+                raise HistoryDependent('matching %r with %r after this history: %r, re gives %r' % (t, pat, got, exp))
         return None, False
     raise ValueError(o)
+
+
+class HistoryDependent(Exception):
+    pass
 
 
 def render(hist):
@@ -125,6 +137,8 @@ def judge(payload, params):
                 if created[k]['table'] != tr:
                     d = O.first_diff(created[k]['table'], tr, UNI) if not isinstance(created[k]['table'], str) else {'error': created[k]['table']}
                     failures.append(dict(rec0, facet='value', detail=dict(d or {}, object=k + 1, emitted=created[k]['str'], reference=ref)))
+        except HistoryDependent as e:
+            failures.append(dict(rec0, facet='history-dependent', detail={'message': str(e)[:400]}))
         except Exception as e:  # noqa
             failures.append(dict(rec0, facet='crash', detail={'observed': type(e).__name__, 'message': str(e)[:200]}))
         if primary and len(samples) < 3:
